@@ -24,6 +24,7 @@ PROP = {
         ("TestVFC16Extract", (30000, 150000)),
         ("TestVFC16EndToEnd", (300, 1000)),
         ("TestVFC16History", (24, 200)),
+        ("TestVFC16Volume", (60, 400)),
     ],
     "shards": (2, 16),
     "workers": (4, 16),
